@@ -10,6 +10,26 @@ NOT_APPLICABLE = {
 for k in ['C01','C02','C03','C04','C05','C06','C07','C10','C11','C12','C13','C14','C15','C16','C17','C18','C19','C20']:
     NOT_APPLICABLE.setdefault(k, UNDER)
 CHECKS = {
+ 'C04': {
+  'text': 'Kani proves on the real default methods, for ALL f32 values: Distance::side stores an item Right iff its margin is positive and Left iff negative (zero margin = random, exempt); Distance::pq_distance gives the child on the margin side a priority >= the other child, equal only when the inherited bound d <= -|margin|, and from a root (+inf) the priorities are exactly (-margin, margin). A static guard checks that no metric overrides these two methods.',
+  'note': 'PARTIAL: the writer-side placement clauses (insert_items_in_file / make_tree_in_file put an item under left iff side() returned Left; rewritten splits keep left/right) and the reader push order are claimed only where the build-chain / reader units are listed in the evidence; symmetry margin(n,q)=margin(q,n) is an IEEE assumption.',
+  'technique': 'Kani full-domain loop-free proofs on the real Distance default methods',
+ },
+ 'C07': {
+  'text': 'Every Verus contract of the item-store mutators carries the frame other_indexes_unchanged(old, new, self.index) over the abstract database view and is discharged from stand-in contracts that touch one key or one prefix/range; Kani proves on the real KeyCodec/PrefixCodec, for all u16 indexes (0 and 65535 included) and all u32 ids, that keys are be16(index) kind be32(id) 0, that byte order = (index, kind, id) order, that a prefix selects exactly its index (and kind), and that the tree range used by delete_range contains exactly the tree keys of the index.',
+  'note': 'The frame of build / prepare_changing_distance is claimed where those units are listed in the evidence. LMDB prefix / range semantics are assumed (stand-ins).',
+  'technique': 'Verus frame postconditions on extracted real functions + Kani proof of the real key codec',
+ },
+ 'C12': {
+  'text': 'Kani proves on the real from_slice_non_optimized / BinaryQuantizedIterator / to_vec_non_optimized / len / from_bytes, for each listed concrete length with fully symbolic contents (all sign patterns, +-0.0, NaNs of both signs, infinities): bit i = sign-positive of x[i], padding bits zero, output length 8*ceil(d/64), read-back +1/-1 per bit, padding reads -1 and is cut by the truncation; and on the real xor/popcount kernels: squared Euclidean = 4h, Manhattan = 2h, dot product = 64*words - 2h, symmetric, reported distance 4h/d and 2h/d.',
+  'note': 'Complete for the listed lengths only (see trusted base); cosine needs float sqrt (not decided); to_vec_sse unverified.',
+  'technique': 'Kani proofs on the real crate, concrete lengths with symbolic contents',
+ },
+ 'C16': {
+  'text': 'The reference layout is written by hand in the harnesses, independent of the encoder. Kani proves on the real codecs: KeyCodec encode = be16(index) kind be32(id) 0 and decode of any such key returns the triple (kinds 4..255 rejected); byte order = tuple order; PrefixCodec; NodeId::to_bytes (function contract) / from_bytes; NodeMode::try_from over all 256 codes; VersionCodec = three be32; leaf = 0 header vector and split = 2 left right normal for concrete vector lengths; tags 0/1/2; f32 vector codec bit-exact; the seven metric names.',
+  'note': 'Layout half only. Not decided: golden fixtures from a reference binary, MetadataCodec and roaring serialisation, NodeCodec::bytes_decode as a whole.',
+  'technique': 'Kani proofs and one Kani function contract on the real codecs',
+ },
  'C13': {
   'text': 'Verus proves the real ConcurrentNodeIds::new / next against an interference-tolerant contract for atomics: fetch_add returns a ticket (issued(v)) and nothing is assumed about what other threads do in between; next returns Ok(id) only with a ticket (a cursor ticket s with available.select(s) = id, or a counter ticket id), id is not in the set of used ids, and the only error is DatabaseFull. A pure lemma shows that different tickets give different ids (select injective; recycled ids < initial counter <= fresh ids). Because the proof never uses the order of other threads it covers every interleaving; replacing fetch_add by load+store loses the ticket and fails the postcondition.',
   'note': 'Assumes atomicity of fetch_add (no value issued twice before wrap) and rank/select properties of roaring; rayon scheduling itself is trusted.',
